@@ -260,7 +260,10 @@ static void scenario(const std::string &scen, int run, Circuit base, const Coloq
     // C18: cell expansion to a target density / by per-cell factors / expansion factors from a congestion map.
     // All real-valued arguments are dyadic so that the contract can be evaluated exactly with integers.
     vg::Rng r((uint64_t)run * 733 + 19);
-    for (int rep = 0; rep < 3; ++rep) {
+    // each entry point is exercised more than once in the same process (nothing may survive from an earlier call): density,
+    // factor, congestion map, then a second and third congestion map and a second density call
+    for (int step = 0; step < 6; ++step) {
+      const int rep = step < 3 ? step : (step < 5 ? 2 : 0);
       Circuit a = base;
       int m2 = (int)r.pick(std::vector<int>{0, 0, 1, 2, 3});       // rowSideMargin = m2 / 2 row heights
       int p64 = (int)r.in(1, 63);                                  // target density / density cap = p64 / 64
